@@ -60,12 +60,10 @@ def ofDateChecked (z : Int) : Out := if decide (-2147483648 ≤ z) && decide (z 
 
 def nat? (i : Int) : Option Nat := if i ≥ 0 then some i.toNat else none
 
-/-- `from_base64` & co.: canonical input (what the encoder produces) decodes to its bytes; a character outside the
-    alphabet raises; other non-canonical input (missing padding, stray bits) is outside the claim. -/
-def decodeClaim (c : Codec) (s : List Char) : Option Out :=
-  match c.decode s with
-  | some b => some (.val (.bytes b))
-  | none => if s.all (fun ch => (c.dec ch).isSome || ch == '=') then none else some .err
+/-- The engine's documented convention for decoders (`from_hex`, `from_base64`, `from_base64url`, `from_base32`, `from_base`,
+    `chr`, `hamming_distance`, `from_big_endian_*`): input that is not valid for the function yields NULL (where Trino raises). -/
+def nullIfNone {α : Type} (o : Option α) (k : α → V) : Out := match o with | some a => .val (k a) | none => .val .null
+def decodeClaim (c : Codec) (s : List Char) : Option Out := some (nullIfNone (c.decode s) .bytes)
 
 /-- Strict (RETURNS NULL ON NULL INPUT) functions on non-NULL, well-typed arguments. -/
 def callStrict (f : String) (args : List V) : Option Out :=
@@ -76,9 +74,9 @@ def callStrict (f : String) (args : List V) : Option Out :=
   | "mod", [.int a, .int b] => some (ofOptInt (modI a b))
   | "greatest", vs => (allInts vs).map (fun l => ofOptInt (greatestI l))
   | "least", vs => (allInts vs).map (fun l => ofOptInt (leastI l))
-  | "width_bucket", [.int x, .int lo, .int hi, .int n] => some (ofOptInt (widthBucket x lo hi n))
+  | "width_bucket", [.int x, .int lo, .int hi, .int n] => (widthBucket x lo hi n).map (fun r => .val (.int r))
   | "to_base", [.int x, .int r] => some (ofOptStr (toBase x r))
-  | "from_base", [.str s, .int r] => some (ofOptInt (fromBase s r))
+  | "from_base", [.str s, .int r] => some (if radixOk r then nullIfNone (fromBase s r) .int else .err)
   -- bitwise
   | "bitwise_and", [.int a, .int b] => some (.val (.int (bitAnd a b)))
   | "bitwise_or", [.int a, .int b] => some (.val (.int (bitOr a b)))
@@ -98,6 +96,7 @@ def callStrict (f : String) (args : List V) : Option Out :=
   | "rtrim", [.str s] => some (.val (.str (rtrimS s)))
   | "concat", vs => if vs.length < 1 then none else (allStrs vs).map (fun l => .val (.str (concatS l)))
   | "concat_op", [.str a, .str b] => some (.val (.str (a ++ b)))
+  | "add", [.int a, .int b] => some (ofIntChecked (a + b))
   | "starts_with", [.str s, .str p] => some (.val (.bool (startsWith s p)))
   | "ends_with", [.str s, .str p] => some (.val (.bool (endsWith s p)))
   | "substring", [.str s, .int st] => some (.val (.str (substr s st none)))
@@ -108,19 +107,19 @@ def callStrict (f : String) (args : List V) : Option Out :=
   | "replace", [.str s, .str p, .str r] => some (.val (.str (replaceS s p r)))
   | "strpos", [.str s, .str p] => some (.val (.int (strpos s p)))
   | "position", [.str p, .str s] => some (.val (.int (strpos s p)))
-  | "lpad", [.str s, .int n, .str p] => some (ofOptStr (lpadS s n p))
-  | "rpad", [.str s, .int n, .str p] => some (ofOptStr (rpadS s n p))
-  | "split_part", [.str s, .str d, .int i] => some (splitPart s d i)
-  | "chr", [.int n] => some (ofOptStr (chrS n))
-  | "codepoint", [.str s] => some (ofOptInt (codepointS s))
+  | "lpad", [.str s, .int n, .str p] => (lpadS s n p).map (fun r => .val (.str r))
+  | "rpad", [.str s, .int n, .str p] => (rpadS s n p).map (fun r => .val (.str r))
+  | "split_part", [.str s, .str d, .int i] => if i ≤ 0 || d.isEmpty then none else some (splitPart s d i)
+  | "chr", [.int n] => some (nullIfNone (chrS n) .str)
+  | "codepoint", [.str s] => (codepointS s).map (fun r => .val (.int r))
   | "ascii", [.str s] => some (.val (.int (asciiS s)))
   | "translate", [.str s, .str a, .str b] => some (.val (.str (translateS s a b)))
-  | "hamming_distance", [.str a, .str b] => some (ofOptInt (hamming a b))
+  | "hamming_distance", [.str a, .str b] => some (nullIfNone (hamming a b) .int)
   | "levenshtein_distance", [.str a, .str b] => some (.val (.int (lev a b)))
-  | "luhn_check", [.str s] => if s.isEmpty then none else some (ofOptBool (luhnCheck s))
+  | "luhn_check", [.str s] => (luhnCheck s).map (fun r => .val (.bool r))
   -- encodings
   | "to_hex", [.bytes b] => some (.val (.str (toHex b)))
-  | "from_hex", [.str s] => some (ofOptBytes (fromHex s))
+  | "from_hex", [.str s] => some (nullIfNone (fromHex s) .bytes)
   | "to_base64", [.bytes b] => some (.val (.str (base64.encode b)))
   | "to_base64url", [.bytes b] => some (.val (.str (base64url.encode b)))
   | "to_base32", [.bytes b] => some (.val (.str (base32.encode b)))
@@ -129,10 +128,10 @@ def callStrict (f : String) (args : List V) : Option Out :=
   | "from_base32", [.str s] => decodeClaim base32 s
   | "to_big_endian_64", [.int x] => some (.val (.bytes (toBigEndian 8 x)))
   | "to_big_endian_32", [.int x] => if decide (-2147483648 ≤ x) && decide (x ≤ 2147483647) then some (.val (.bytes (toBigEndian 4 x))) else none
-  | "from_big_endian_64", [.bytes b] => some (ofOptInt (fromBigEndian 8 b))
-  | "from_big_endian_32", [.bytes b] => some (ofOptInt (fromBigEndian 4 b))
+  | "from_big_endian_64", [.bytes b] => if b.length > 8 then none else some (nullIfNone (fromBigEndian 8 b) .int)
+  | "from_big_endian_32", [.bytes b] => if b.length > 4 then none else some (nullIfNone (fromBigEndian 4 b) .int)
   | "url_encode", [.str s] => some (.val (.str (urlEncode s)))
-  | "url_decode", [.str s] => some (ofOptStr (urlDecode s))
+  | "url_decode", [.str s] => (urlDecode s).map (fun r => .val (.str r))
   | "to_utf8", [.str s] => some (.val (.bytes (IQE.Utf8.encode s)))
   | "from_utf8", [.bytes b] => (IQE.Utf8.decode b).map (fun s => .val (.str s))
   -- dates
@@ -143,9 +142,9 @@ def callStrict (f : String) (args : List V) : Option Out :=
   | "day_of_week", [.date z] => some (.val (.int (dayOfWeek z)))
   | "day_of_year", [.date z] => some (.val (.int (dayOfYear z)))
   | "last_day_of_month", [.date z] => some (ofDateChecked (lastDayOfMonth z))
-  | "date_add", [.str u, .int n, .date z] => some (match unitOfString u with | some u => ofDateChecked (dateAdd u n z) | none => .err)
-  | "date_diff", [.str u, .date a, .date b] => some (match unitOfString u with | some u => .val (.int (dateDiff u a b)) | none => .err)
-  | "date_trunc", [.str u, .date z] => some (match unitOfString u with | some u => .val (.date (dateTrunc u z)) | none => .err)
+  | "date_add", [.str u, .int n, .date z] => (unitOfString u).map (fun u => ofDateChecked (dateAdd u n z))
+  | "date_diff", [.str u, .date a, .date b] => (unitOfString u).map (fun u => .val (.int (dateDiff u a b)))
+  | "date_trunc", [.str u, .date z] => (unitOfString u).map (fun u => .val (.date (dateTrunc u z)))
   | _, _ => none
 
 /-- The documented value of `f(args)`. -/
@@ -165,12 +164,14 @@ def call (f : String) (args : List V) : Option Out :=
 /-- Expressions over the case's arguments (a plain call is `f(arg 0, …, arg k)`). -/
 inductive E
   | arg (j : Nat)
+  | const (v : V)
   | app (f : String) (a : List E)
 deriving Repr, Inhabited
 
 mutual
 def eval (row : List V) : E → Option Out
   | .arg j => (row[j]?).map .val
+  | .const v => some (.val v)
   | .app f as => match evalList row as with
     | none => none
     | some (.inl vs) => call f vs
